@@ -551,15 +551,9 @@ class Analysis:
             return None
 
         def ref_is_mut(local):
-            ds = self.defs().get(local, [])
-            if len(ds) == 1:
-                rv = getattr(ds[0][2], "rv", None)
-                if rv is not None and rv.kind in ("ref", "rawptr"):
-                    return rv.j["mut"]
-                if rv is not None and rv.kind == "use" and rv.ops[0].kind in ("copy", "move") and rv.ops[0].place.is_local():
-                    return ref_is_mut(rv.ops[0].place.local)
-            if not ds and 1 <= local <= fn.arg_count:
-                t = fn.local_ty(local)
+            # the type of the reference temporary decides
+            t = fn.local_ty(local)
+            if t.get("k") in ("ref", "ptr"):
                 return bool(t.get("mut"))
             return None
 
